@@ -449,7 +449,15 @@ def rule_R9(body):
     return body, n
 
 
-RULES = {"R9": rule_R9, "R11": rule_R11, "R1": rule_R1, "R2": rule_R2, "R4": rule_R4, "R7": rule_R7, "R8": rule_R8}
+def rule_R12(body):
+    """X |= E;  =>  X = X | E;   (compound assignment on the Copy bitflags types; same result by the bitflags model, cross-checked by Kani)"""
+    pat = re.compile(r"(?m)^([ \t]*)(\w+) \|= ([^;\n]+);")
+    n = len(pat.findall(body))
+    body = pat.sub(lambda m: "%s%s = %s | %s;" % (m.group(1), m.group(2), m.group(2), m.group(3)), body)
+    return body, n
+
+
+RULES = {"R12": rule_R12, "R9": rule_R9, "R11": rule_R11, "R1": rule_R1, "R2": rule_R2, "R4": rule_R4, "R7": rule_R7, "R8": rule_R8}
 
 
 def match_brace(text, ob):
